@@ -58,6 +58,15 @@ type GhostUpdate struct {
 	All    bool
 }
 
+// CallsiteSpec: an assertion at every call of <Callee> inside the function under contract, over
+// the enclosing function's variables and the call's arguments (callArg[T](i), receiver first).
+type CallsiteSpec struct {
+	Callee string
+	Text   string
+	File   string
+	Line   int
+}
+
 type LoopSpec struct {
 	Invariants []*Clause
 	Decreases  []*Clause
@@ -74,6 +83,7 @@ type Contract struct {
 	ModeSet    bool
 	Requires   []*Clause
 	Ensures    []*Clause
+	Callsites  []*CallsiteSpec
 	Ghosts     []*GhostUpdate // ghost-state updates applied at exit (the chosen witnesses of the abstract view)
 	Loops      map[int]*LoopSpec
 	Modifies   []string
@@ -84,6 +94,7 @@ type Contract struct {
 	Trusted    bool // contract assumed, body not verified (listed in trusted base)
 	PreNames   []string
 	PostNames  []string
+	CalleeClassesOnly bool
 	IfaceMethod bool // contract of an interface method: assumed of every implementation (trusted)
 	File       string
 	Line       int
@@ -177,6 +188,8 @@ func allocated[T any](p *T) bool                       { return true }
 func funcIs(f interface{}, name string) bool           { return true }
 func inClass(f interface{}, class string) bool         { return true }
 func nothingModified() bool                            { return true }
+func preservedArrays[T any]() bool                     { return true }
+func callArg[T any](i int) T                           { var z T; return z }
 func ghostInt(p interface{}, name string) int          { return 0 }
 func ghostSeq[U any](p interface{}, name string, i int) *U { return nil }
 func hasKey[K comparable, V any](m map[K]V, k K) bool  { _, ok := m[k]; return ok }
@@ -191,7 +204,7 @@ var rangeindex int
 `
 
 var preludeNames = []string{"old", "forall", "exists", "forallp", "forallstr", "forallint", "imp", "ite", "addFits", "subFits", "mulFits", "mulAbsLtU", "isNaN", "isInf", "sameFloat", "fresh",
-	"typeIs", "streq", "exactDiv", "floorDiv", "popcount", "fabs", "ffloor", "fceil", "fround", "ftrunc", "reachable", "unchanged", "allocated", "funcIs", "inClass", "nothingModified", "rangeindex", "allBytes", "allChars", "rangeBytes", "rangeChars", "ext", "hasKey", "ghostInt", "ghostSeq"}
+	"typeIs", "streq", "exactDiv", "floorDiv", "popcount", "fabs", "ffloor", "fceil", "fround", "ftrunc", "reachable", "unchanged", "allocated", "funcIs", "inClass", "nothingModified", "rangeindex", "allBytes", "allChars", "rangeBytes", "rangeChars", "ext", "hasKey", "ghostInt", "ghostSeq", "callArg", "preservedArrays"}
 
 func pkgDirOf(short string) string { return filepath.Join(repoDir, "pkg", short) }
 
@@ -280,6 +293,12 @@ func (cs *ContractSet) parseFile(file string) error {
 			cur.Requires = append(cur.Requires, mk("requires", rest))
 		case "ensures":
 			cur.Ensures = append(cur.Ensures, mk("ensures", rest))
+		case "callsite":
+			i := strings.Index(rest, ":")
+			if i < 0 {
+				return fmt.Errorf("%s:%d: bad callsite clause", file, ln+1)
+			}
+			cur.Callsites = append(cur.Callsites, &CallsiteSpec{Callee: strings.TrimSpace(rest[:i]), Text: strings.TrimSpace(rest[i+1:]), File: file, Line: ln + 1})
 		case "ghost":
 			// ghost name(target) = value
 			lp := strings.Index(rest, "(")
@@ -338,6 +357,10 @@ func (cs *ContractSet) parseFile(file string) error {
 				cur.Ensures = append(cur.Ensures, cl)
 				cs.Classes[pkg+"."+cn] = append(cs.Classes[pkg+"."+cn], cur)
 			}
+		case "callee-classes-only":
+			// at call sites in this function only the class postconditions of callees are assumed
+			// (keeps dispatcher VCs free of the kernels' arithmetic)
+			cur.CalleeClassesOnly = true
 		case "nilchecks":
 			cur.NilChecks = true
 		case "nosafety":
@@ -965,4 +988,14 @@ func readFileOverlay(name string) ([]byte, error) {
 		return b, nil
 	}
 	return os.ReadFile(name)
+}
+
+func (c *Contract) ClassNames() []string {
+	var out []string
+	for _, cl := range c.Ensures {
+		if cl.Class != "" {
+			out = append(out, cl.Class)
+		}
+	}
+	return out
 }
